@@ -44,6 +44,10 @@ type Spec struct {
 	FullReg bool `json:"types_added_to_every_type,omitempty"`
 	// UnnamedFiles: the type schemas are created with an empty file name (jschema.New("", text)).
 	UnnamedFiles bool `json:"type_files_unnamed,omitempty"`
+	// PreRoot: before the root is assembled, a throw-away root receives every second type object
+	// (the SAME objects) and is Check()ed - its result is ignored. Results on the real root must
+	// not depend on that (the type objects are shared the way an API definition shares them).
+	PreRoot bool `json:"other_root_checked_first,omitempty"`
 }
 
 // Obs is what one call returned.
@@ -234,6 +238,18 @@ func Build(sp Spec) (s *njs.Schema, o Obs) {
 				}
 			}
 		}
+	}
+	if sp.PreRoot {
+		pre := njs.New("pre", sp.Text, opts...)
+		for _, r := range sp.Rules {
+			_ = pre.AddRule(r.Name, enum.New(r.Name, r.Text))
+		}
+		for i, t := range sp.Types {
+			if i%2 == 0 {
+				_ = pre.AddType(t.Name, built[i])
+			}
+		}
+		Safe(pre.Check)
 	}
 	for i, t := range sp.Types {
 		if err := s.AddType(t.Name, built[i]); err != nil {
